@@ -7,6 +7,9 @@ OPS = ('P', 'R', 'Pex', 'Rex', 'Inj', 'P0', 'R0', 'Pex0', 'Rex0')
 
 def run(res, tier, seed):
     res.trusted_base += [
+        'translator T3 (translate/t3_stencil.py): the macro FINE_NODE_PROLONGATION (two grids: fineGrid spacings, coarseGrid indices) regenerated into '
+        'gen/StencilGen.v and proved equal to the model row P_row (InterpTie.v); the call-site definitions i_r_coarse = i_r / 2, i_theta_coarse = '
+        'i_theta / 2 are checked textually; restriction, the extrapolated pair, injection and the reference versions are tied by the K-matrix only',
         'hand-written model coq/theories/InterpDefs.v (rows of P, R, Pex, Rex, Inj in (i_r,i_theta) coordinates) tied by '
         'K-matrix: harness/h_interp.cpp extracts the complete matrix of every operator (optimised and reference versions) '
         'from the real Interpolation class; extracted model in exact rationals (ExtrOcamlBasic + ExtrOcamlZBigInt)',
@@ -18,6 +21,10 @@ def run(res, tier, seed):
         'the model has one row function per operator; the reference (…0) and optimised implementations are both compared with it',
         'thread-count independence of these operators is C11/C12',
     ]
+    for n, ok, msg in C.run_translators(['t3_stencil']):
+        res.obligation('translator:' + n, ok, msg[-300:])
+        if not ok:
+            res.fail('translator:' + n, msg)
     cr = C.coq_build('C08')
     res.add_coq(cr)
     out = I.run_correspondence(res, tier, seed, OPS)
